@@ -14,7 +14,12 @@ RULE = ('construction monitor: generated plans (random background of wire/child/
         'same starting from a faulty build); plans also contain library interfaces (AXI4/Lite/Stream), '
         'write/read sub-interfaces, signals shared by reference and dropped again followed by a second use of the name, and '
         'disconnectWireFromLogicObject steps (primitive driver released and '
-        'replaced, structural block or unrelated object refused). non-trivial = the plan/case contains a fault (accept-only ones are trivial); distinct by content hash')
+        'replaced, structural block or unrelated object refused), and addOut/addIn/reconnectIn on an EXISTING primitive after one of its '
+        'ports was detached (the detached port\'s name or a new name; onto free / driven / read wires: 3 fault kinds readd_*, plus '
+        'accept-only re-adds in the background); after every step a global invariant read from the object graph: over all live '
+        'primitives an ordinary wire has at most one out port attached and it is getSource(); integrity: the undriven/driven extra '
+        'port also on the special wires of a system (wire of the system clock driver, of a gated/derived driver of the level, of its '
+        'base drivers, enable wire, block-generated clock, wires of another scope incl. one named clk). non-trivial = the plan/case contains a fault (accept-only ones are trivial); distinct by content hash')
 SHARDS = {'quick': 1, 'thorough': 16}
 TIMEOUT = {'quick': 600, 'thorough': 3000}
 MIN_NONTRIVIAL = {'quick': 5000, 'thorough': 100000}
@@ -44,6 +49,11 @@ def assumptions(run):
     run.assume('a block is a primitive (its ports register as sink/source) when it has a propagate()/clock() method at the moment the '
                'port is declared, wherever the method is bound (class, or instance via types.MethodType as AbstractLogic users do)')
     run.assume('the verdict of checkIntegrity depends on the hierarchy as it is when called, not on earlier calls in the process')
+    run.assume('"a wire that no block drives" is read literally for every wire object, clock driver wires included: the wire held by a '
+               'ClockDriver (HWSystem clk, a gated/derived driver wire) has no source unless a block out port drives it, so a port on it '
+               'must be reported; the unchanged tree does so')
+    run.assume('adding an out port to an existing primitive (addOut after disconnectWireFromLogicObject) is one more way of creating a '
+               'driver: on an already driven ordinary wire it must raise and leave the earlier driver, whatever the port name')
     run.assume('a hierarchy is any Logic object handed to checkIntegrity: drivers outside the checked sub-hierarchy still count as drivers')
 
 
@@ -57,6 +67,11 @@ def judge_plan(run, plan, kind, faulty, res, interpreter=None):
     for x in res['exc']:
         run.extra.setdefault('fault_exception_classes', {})
         run.extra['fault_exception_classes'][x] = run.extra['fault_exception_classes'].get(x, 0) + 1
+    run.count('seq_driver_invariant_wire_checks', res.get('inv_checked', 0))
+    run.count('seq_readd_same_name_taken_from_a_detached_port', res.get('same_resolved', 0))
+    for k, v in (res.get('readd') or {}).items():
+        rd = run.extra.setdefault('seq_ports_readded_on_existing_block', {})
+        rd[k] = rd.get(k, 0) + v
     for n in res['notes']:
         run.count('seq_notes')
         run.extra.setdefault('seq_notes', [])
@@ -137,6 +152,10 @@ def judge_case(run, case, res):
     run.extra.setdefault('integrity_by_fault', {})
     key = '%s:%s' % (kind, {None: 'excluded', True: 'must_raise', False: 'must_accept'}[res['expected']])
     run.extra['integrity_by_fault'][key] = run.extra['integrity_by_fault'].get(key, 0) + 1
+    if kind == 'port' and f.get('wire'):
+        sw = run.extra.setdefault('integrity_port_on_special_wire', {})
+        k2 = '%s_%s:%s' % (f['wire'], f['dir'], {None: 'excluded', True: 'must_raise', False: 'must_accept'}[res['expected']])
+        sw[k2] = sw.get(k2, 0) + 1
     if res['raised']:
         run.extra.setdefault('integrity_exception_classes', {})
         run.extra['integrity_exception_classes'][res['raised']] = run.extra['integrity_exception_classes'].get(res['raised'], 0) + 1
@@ -286,12 +305,26 @@ def coverage_floor(run, tier):
         if pk.get(k + '|fault_reached', 0) < (20 if tier == 'quick' else 200):
             run.inconclusive.append('fault kind %s reached its faulting step only %d times' % (k, pk.get(k + '|fault_reached', 0)))
     plans = run.counters.get('plans', 0)
+    rd = run.extra.get('seq_ports_readded_on_existing_block', {})
+    for k in ('out_same_name_must_raise', 'out_new_name_must_raise', 'out_same_name_must_accept', 'out_new_name_must_accept', 'in_same_name_must_accept',
+              'in_new_name_must_accept'):
+        if rd.get(k, 0) < 20:
+            run.inconclusive.append('re-added port class %s judged only %d times' % (k, rd.get(k, 0)))
+    if run.counters.get('seq_driver_invariant_wire_checks', 0) < 1000 or run.counters.get('seq_readd_same_name_taken_from_a_detached_port', 0) < 20:
+        run.inconclusive.append('driver invariant / same-name re-adds hardly exercised')
     if run.extra.get('seq_plans_discarded_by_generator', 0) > 0.02 * max(1, plans):
         run.inconclusive.append('generator discarded %d plans' % run.extra['seq_plans_discarded_by_generator'])
     bf = run.extra.get('integrity_by_fault', {})
     for k in ('complete:must_accept', 'omit:must_raise', 'disc_in:must_raise', 'disc_out:must_raise', 'port:must_raise', 'port:must_accept'):
         if bf.get(k, 0) < 20:
             run.inconclusive.append('integrity class %s judged only %d times' % (k, bf.get(k, 0)))
+    sw = run.extra.get('integrity_port_on_special_wire', {})
+    for wk, driven in c11integ.SPECIAL_WIRES.items():
+        if wk == 'fresh':
+            continue
+        n = sum(v for k, v in sw.items() if k.startswith(wk + '_in:') and k.endswith('must_accept' if driven else 'must_raise'))
+        if n < 5:
+            run.inconclusive.append('integrity: in port on special wire %s (%s) judged only %d times' % (wk, 'driven' if driven else 'undriven', n))
     hc = run.extra.get('integrity_history_checks', {})
     for k in ('initial:must_accept', 'after_disconnect:must_raise', 'repeat_after_disconnect:must_raise', 'after_reattach:must_accept',
               'initial:must_raise', 'repeat_initial:must_raise'):
